@@ -8,7 +8,7 @@ from ..cfg import cfg_of
 from ..model import AnalysisError, ClassInfo, EnumMember, FuncInfo, UNKNOWN, is_self_attr, norm, unparse, walk_shallow
 from ..report import Check
 from ..cfg import no_exc
-from ..rules import Resolver, branch_reaches_exit, calls_in_func, dispatch_sites, last_name
+from ..rules import Resolver, branch_reaches_exit, calls_in_func, dispatch_sites, enclosing_handlers, last_name
 from . import common
 from .common import waiting_future_key
 from .sym import auto_persist_set, saved_loaded_keys
@@ -135,6 +135,16 @@ def run(chk: Check) -> None:
     subject = ac.params[1] if len(ac.params) > 1 else 'command'
     ffa = chk.ctx.facts.analyse(ac)
     sites = dispatch_sites(ffa, lambda c: calls.state_ctor_label(ac, c) is not None)
+    # the dispatcher folded into Running.execute (its only caller): the same ladder, over a local of execute; the EXCEPTED state execute builds for a step that
+    # raised is not part of the dispatch (it is looked at below, as an exit of execute)
+    folded = 'process_states.Running._action_command' in prog.folded
+    exc_site_nodes: List = []
+    if folded:
+        exc_site_nodes = [m for n_, c_, _ in sites if repr(calls.state_ctor_label(ac, c_)) == 'ProcessState.EXCEPTED' and enclosing_handlers(ac, c_) for m in ffa.cfg.nodes_containing(c_)]
+        sites = [(n_, c_, p_) for n_, c_, p_ in sites if not (repr(calls.state_ctor_label(ac, c_)) == 'ProcessState.EXCEPTED' and enclosing_handlers(ac, c_))]
+        subj = {k.split(':', 1)[1] for _, _, p_ in sites for k in p_ if k.startswith('isinstance:')}
+        if len(subj) == 1:
+            subject = next(iter(subj))
     if not sites:
         chk.ob('DISP-command', ac, False, 'no state is built from the command in Running._action_command', kind='no-dispatch')
     cmd_base = prog.cls('process_states.Command')
@@ -186,7 +196,7 @@ def run(chk: Check) -> None:
     # an unrecognised command cannot complete normally: every normal exit passes one of the state-building sites
     site_nodes = [n for n, _, _ in sites]
     all_site_nodes = [m for _, c, _ in sites for m in ffa.cfg.nodes_containing(c)]
-    raises = bool(site_nodes) and ffa.cfg.must_pass(ffa.cfg.entry, [ffa.cfg.exit], lambda m: m in all_site_nodes, edge_ok=no_exc)
+    raises = bool(site_nodes) and ffa.cfg.must_pass(ffa.cfg.entry, [ffa.cfg.exit], lambda m: m in all_site_nodes or m in exc_site_nodes, edge_ok=no_exc)
     chk.ob('DISP-command', ac, raises, 'an unrecognised command raises (no normal return without having built a state)', kind='fallthrough-raises')
     rets = [s for s in ast.walk(ac.node) if isinstance(s, ast.Return)]
     chk.ob('DISP-command', ac, len(rets) >= 1 and all(r.value is not None for r in rets), 'returns the state built', kind='returns-state')
@@ -278,6 +288,10 @@ def run(chk: Check) -> None:
     chk.ob('DISP-command', ex, ok_src, 'what is wrapped is the value the step function returned', kind='wrap-source')
     cfge = ffe.cfg
     disp = [n for n in cfge.nodes if any(isinstance(c, ast.Call) and last_name(c) == '_action_command' for c in (walk_shallow(n.expr()) if n.expr() is not None else []))]
+    if folded and not disp:
+        # (folded dispatcher: the sites of the ladder themselves are the dispatch)
+        disp = [m for m in cfge.nodes if m.kind != 'return' and any(isinstance(c, ast.Call) and calls.state_ctor_label(ex, c) is not None and repr(calls.state_ctor_label(ex, c)) != 'ProcessState.EXCEPTED'
+                                                                     for c in (walk_shallow(m.expr()) if m.expr() is not None else []))]
     exc_nodes = [n for n in cfge.nodes if any(isinstance(c, ast.Call) and repr(calls.state_ctor_label(ex, c)) == 'ProcessState.EXCEPTED'
                                               for c in (walk_shallow(n.expr()) if n.expr() is not None else []))]
     ok = bool(disp) and cfge.must_pass(cfge.entry, [cfge.exit], lambda m: m in disp or m in exc_nodes, edge_ok=no_exc)
